@@ -117,6 +117,19 @@ def named_cases():
         'p/m.lay': 'print("p.m");\nexport let v = "nested";\n',
         'main.lay': 'import self.m;\nimport self.p.m as pm;\nprint(m.v, pm.v);\nimport self.m as again;\nprint(again.v);\n'},
         ['root m', 'p', 'p.m', 'root nested', 'root']))
+    out.append(('paths whose segments concatenate to the same text', {
+        'utils.lay': 'print("utils body");\nexport let who = "flat utils";\n',
+        'util.lay': 'print("util body");\nexport let who = "util pkg";\n',
+        'util/s.lay': 'print("s body");\nexport let who = "nested s";\n',
+        'main.lay': ('import self.utils;\nprint(utils.who);\nimport self.util.s;\nprint(s.who);\nimport self.util.s:{who};\n'
+                     'print(who);\nimport self.utils as again;\nprint(again.who);\n')},
+        ['utils body', 'flat utils', 'util body', 's body', 'nested s', 'nested s', 'flat utils']))
+    out.append(('module objects are per import', {
+        'settings.lay': 'print("settings body");\nexport let x = 10;\nexport fn bump() { x = x + 1; return x; }\n',
+        'main.lay': ('import self.settings;\nimport self.settings as s2;\nprint(settings.x, s2.x);\nsettings.x = 99;\n'
+                     'print(settings.x, s2.x);\nprint(s2.bump());\nimport self.settings as s3;\nprint(s3.x, s2.x, settings.x);\n'
+                     'import self.settings:{x};\nprint(x);\n')},
+        ['settings body', '10 10', '99 10', '11', '11 10 99', '11']))
     out.append(('module named like its package', {
         'q.lay': 'print("q");\nexport let v = 1;\n', 'q/q.lay': 'print("q.q");\nexport let v = 2;\n',
         'main.lay': 'import self.q.q as inner;\nimport self.q;\nprint(q.v, inner.v);\n'},
